@@ -507,8 +507,19 @@ class Engine(Interp):
         if k == 'assign':
             self.cur_span = stmt.get('span') or self.cur_span
             out = []
+            src_local = None
+            u = stmt['rv'].get('use') if isinstance(stmt['rv'], dict) else None
+            if isinstance(u, dict) and not stmt['place']['proj']:
+                q = u.get('copy') or u.get('move')
+                if isinstance(q, dict) and not q.get('proj'):
+                    src_local = q['local']
             for s, v in self.eval_rvalue(st, fid, stmt['rv']):
                 ptr = self.eval_place(s, fid, stmt['place'])
+                if src_local is not None and v[0] == 'int':
+                    # (a temporary that is a plain copy of a local: differences are tracked per user local)
+                    s.loadcache[('alias', fid, stmt['place']['local'])] = (src_local, v)
+                else:
+                    s.loadcache.pop(('alias', fid, stmt['place']['local']), None)
                 if 'repeat' in stmt['rv'] and v[0] == 'oarr' and not stmt['place']['proj']:
                     # an array built in place ([x; n]): it gets an identity of its own (the place it is built in)
                     v = ('oarr', ('rep', fid, stmt['place']['local']), v[2])
